@@ -124,10 +124,10 @@ class GateGrad:
                        np.array(_bilinear(g, np.array([sp.conjugate(v) for v in q.ravel()], dtype=object), I['ctrl'] if self.ctrl else (), idx, n), dtype=object)))
         else:
             fwd = (lambda z: st.apply_control_n_gate(z, U, set(I['ctrl']), idx)) if self.ctrl else (lambda z: st.apply_gate(z, U, idx))
-            cl.append(('state_gradient_is_derivative_of_forward', r['qg'], _num_grad(fwd, g, q)))
+            cl.append(('state_gradient_is_derivative_of_forward', r['qg'], _num_grad(fwd, g, q, eps=0.5)))      # the forward map is real-linear in q: the central difference is exact for any step, a large step avoids cancellation
             fwdU = (lambda W: st.apply_control_n_gate(q, W, set(I['ctrl']), idx)) if self.ctrl else (lambda W: st.apply_gate(q, W, idx))
             cl.append(('op_gradient_is_bilinear_in_g_and_unapplied_state', SS.arr(r['og']).ravel(), np.array(_bilinear(g, SS.arr(r['qc2']), I['ctrl'] if self.ctrl else (), idx, n))))
-            cl.append(('derivative_wrt_gate_entries_is_that_bilinear_form_at_conj_input', _num_grad(fwdU, g, U).ravel(),
+            cl.append(('derivative_wrt_gate_entries_is_that_bilinear_form_at_conj_input', _num_grad(fwdU, g, U, eps=0.5).ravel(),
                        np.array(_bilinear(g, q.conj(), I['ctrl'] if self.ctrl else (), idx, n))))
         return cl
 
@@ -183,7 +183,7 @@ class InnerGrad:
             ref = sum(sp.conjugate(a) * b for a, b in zip(q0, q1))
         else:
             c = r['c']; ref = np.vdot(q0, q1)
-            s0 = _num_grad(lambda z: np.array([np.vdot(z, q1)]), np.array([cg]), q0); s1 = _num_grad(lambda z: np.array([np.vdot(q0, z)]), np.array([cg]), q1)
+            s0 = _num_grad(lambda z: np.array([np.vdot(z, q1)]), np.array([cg]), q0, eps=0.5); s1 = _num_grad(lambda z: np.array([np.vdot(q0, z)]), np.array([cg]), q1, eps=0.5)
         return [('inner_product_is_vdot', c, ref), ('grad_q0_is_derivative', r['g0'], np.array(s0, dtype=q0.dtype)), ('grad_q1_is_derivative', r['g1'], np.array(s1, dtype=q0.dtype)),
                 ('none_when_not_requested', np.array([int(r['none'])]), np.array([1]))]
 
@@ -335,6 +335,19 @@ def job_torch_ops(tier, rng):
                     gh = (g_custom + np.swapaxes(g_custom.conj(), -1, -2)) / 2
                     g2 = At2.grad.detach().numpy(); g2h = (g2 + np.swapaxes(g2.conj(), -1, -2)) / 2
                     ok = ok and np.abs(gh - g2h).max() < 1e-6
+                if kind == 'rankdef':
+                    # rank-deficient input A = X X^H (X of full column rank): directional derivative along rank-preserving curves A(t) = (X+tD)(X+tD)^H
+                    # against the closed form sqrt(X X^H) = X (X^H X)^(-1/2) X^H (independent oracle); the null/range cross terms of the backward matter here
+                    def sq(Xm):
+                        w_, v_ = np.linalg.eigh(Xm.conj().T @ Xm)
+                        return Xm @ ((v_ / np.sqrt(w_)) @ v_.conj().T) @ Xm.conj().T
+                    Gn = G.numpy()
+                    for rep in range(3):
+                        D = _rc(rng, *x.shape); eps = 1e-5
+                        fd = (np.real(np.sum(np.conj(Gn) * sq(x + eps * D))) - np.real(np.sum(np.conj(Gn) * sq(x - eps * D)))) / (2 * eps)
+                        dA = D @ x.conj().T + x @ D.conj().T
+                        an = np.real(np.sum(np.conj(g_custom) * dA))
+                        ok = ok and abs(fd - an) < 1e-5 * max(1.0, abs(fd), np.abs(g_custom).max())
                 # Sylvester identity S X + X S = G_h restricted to the support
                 Sn = S.detach().numpy()
                 if kind == 'full':
